@@ -263,3 +263,24 @@ def with_cmpmodes(cases, modes=(1,)):
         for c in cases:
             extra.append(Case('%s_cm%d' % (c.name, m), c.header + ['cmpmode %d' % m], c.ops, c.origin))
     return cases + extra
+
+
+def swap_variants(cases, seed, every=3):
+    """Every `every`-th case with at least three operations is replayed with the header `swapobj i j`: before its
+    operations number i and j the driver exchanges the tree object with a second (empty) tree object whose elements
+    embed the node at another offset (cstl_bintree_swap / cstl_rbtree_swap) and carries on with that one.  Everything
+    the tree is made of travels with it, so model and oracles are unaffected."""
+    rnd = random.Random(seed * 7919 + 77)
+    out = []
+    n = 0
+    for c in cases:
+        if len(c.ops) < 3 or any(h.split()[0] == 'swapobj' for h in c.header):
+            continue
+        n += 1
+        if n % every:
+            continue
+        i = rnd.randrange(1, len(c.ops))
+        j = rnd.randrange(i, len(c.ops) + 1)
+        out.append(Case(c.name + 's', c.header + ['swapobj %d %d' % (i, j) if j > i and j < len(c.ops) else 'swapobj %d' % i],
+                        c.ops, c.origin))
+    return out
